@@ -286,12 +286,17 @@ class Context:
             arr._elements = list(obj.keys())
             return arr
 
+        def read(obj, key):
+            """Read a property the way script code would (accessors run, with obj as this)."""
+            vm = self._current_vm
+            return vm._get_property(obj, key) if vm is not None else obj.get(key)
+
         def values_fn(*args):
             obj = args[0] if args else UNDEFINED
             if not isinstance(obj, JSObject):
                 return JSArray()
             arr = JSArray()
-            arr._elements = [obj.get(k) for k in obj.keys()]
+            arr._elements = [read(obj, k) for k in obj.keys()]
             return arr
 
         def entries_fn(*args):
@@ -302,7 +307,7 @@ class Context:
             arr._elements = []
             for k in obj.keys():
                 entry = JSArray()
-                entry._elements = [k, obj.get(k)]
+                entry._elements = [k, read(obj, k)]
                 arr._elements.append(entry)
             return arr
 
@@ -316,7 +321,12 @@ class Context:
                 source = args[i]
                 if isinstance(source, JSObject):
                     for k in source.keys():
-                        target.set(k, source.get(k))
+                        vm = self._current_vm
+                        if vm is not None:
+                            # Get from the source and Set on the target (accessors run)
+                            vm._set_property(target, k, vm._get_property(source, k))
+                        else:
+                            target.set(k, source.get(k))
             return target
 
         def get_prototype_of(*args):
@@ -854,7 +864,9 @@ class Context:
                     return "[" + ",".join(items) + "]"
                 members = []
                 for key in v.keys():
-                    item = serialize(v.get(key), path)
+                    vm = ctx._current_vm
+                    member = vm._get_property(v, key) if vm is not None else v.get(key)
+                    item = serialize(member, path)
                     if item is not None:
                         members.append(quote(key) + ":" + item)
                 return "{" + ",".join(members) + "}"
